@@ -4,6 +4,26 @@ selftest/last_run.json (which checks catch which changes)."""
 import json, os, re
 HERE = os.path.dirname(os.path.dirname(os.path.abspath(__file__)))
 WHAT = {
+ 'S-C01-5': 'legal_ep_move early accept when not in check and neither vanishing pawn is in `pinned`: king and rook on the rank with only the two pawns between',
+ 'S-C02-5': 'both castle-rights updates skipped when the MOVER has no rights left: capturing the opponent\'s home-square rook keeps its right',
+ 'S-C03-5': 'update_pin_info adds knight/pawn checkers only if the slider scan found none: knight+slider double check from FEN loses the knight',
+ 'S-C06-5': 'builder caches the en-passant SQUARE computed from the side to move at set time; side_to_move() setter does not recompute it',
+ 'S-C07-5': 'Board::try_from moves the set_ep block after update_pin_info/is_sane: the en-passant conjunct of is_sane never fires',
+ 'S-C08-5': 'Board::xor takes (square, bitboard); the en-passant capture passes `dest` as the square: hash toggles the wrong pawn key',
+ 'S-C10-5': 'accept_draw rewritten as a slice-pattern match and the `result().is_some()` gate dropped as redundant: accepted after a mating move',
+ 'S-C11-5': 'rights-change test compares castle_rights(side_to_move()) before with the same expression after the move (side flipped): list cleared every ply when the sides\' rights differ',
+ 'S-C12-5': 'fast path for fully qualified piece texts (Nb1c3) validated by legal_quick only: returns illegal moves',
+ 'S-C14-5': 'set_iterator_mask returns early for mask == !EMPTY without re-partitioning: exhausted entries stay in front',
+ 'S-C15-4': 'hemmed-in fast path in get_rook/bishop_moves returns king_moves & magic.mask (mask lacks the ray ends) when all eight neighbours are occupied',
+ 'S-C04-4': 'en-passant capture additionally required to land on the check mask: the only reply to a double-push check is dropped, Checkmate for Ongoing',
+ 'S-C05-4': 'en-passant early accept when neither pawn is in `pinned` and not in check: king and rook on the capture rank with only the two pawns between',
+ 'S-C09-4': 'get_hash hashes the en-passant right as a ghost pawn on the skipped square (piece key shared between two components)',
+ 'S-C13-4': 'SAN and UCI promotion tables merged into one helper accepting both cases: "e7e8Q" parses and renders as "e7e8q"',
+ 'S-C16-4': 'get_pawn_quiets branch-free: own square removed with `^` (adds it when absent), smear makes a phantom blocker',
+ 'S-C17-4': 'gen_lines visits unordered pairs with an inner bound one short: every LINE entry involving h8 stays empty',
+ 'S-C18-4': 'update_pin_info fast path returns before `pinned = EMPTY` when no slider shares a line with the king: stale pins survive null_move',
+ 'S-C19-4': 'slot taken from the top bits by `hash >> (64 - log2 size)`: size-1 table shifts by 64',
+ 'S-C20-4': 'reverse_colors uses reverse_bits (180 degree rotation) instead of swap_bytes',
  'S-C01-1': 'en-passant source loop skips pinned pawns (a pawn pinned along the capture diagonal may capture)',
  'S-C01-2': 'promotion flag computed from the unpinned pawns only: a pinned pawn capturing onto the last rank yields one non-promotion move',
  'S-C02-1': 'set_ep tests `sq.uleft() | sq.uright()` instead of adjacent files & rank: wraps round the board edge',
